@@ -176,10 +176,10 @@ def chk32 (x : Int) : Res Int :=
 
 namespace FF
 
-/-- `FF::new`: `assert!(p > 0); Self(a.rem_euclid(p))` -/
+/-- `FF::new`: `assert!(p > 0); Self(a.rem_euclid(p))` (`rem_euclid` is Lean's `%` on `Int`) -/
 def new (p a : Int) : Res Int := do
   Res.assert (decide (p > 0))
-  ok (a.emod p)
+  ok (a % p)
 
 def isZero (a : Int) : Bool := a == 0
 def isOne (a : Int) : Bool := a == 1
@@ -226,7 +226,7 @@ end FF
 namespace FF2
 
 /-- `From<I>`: `a.to_i64().unwrap().is_odd()` -/
-def ofInt (a : Int) : Bool := a.emod 2 == 1
+def ofInt (a : Int) : Bool := a % 2 == 1
 def isZero (a : Bool) : Bool := !a
 def isOne (a : Bool) : Bool := a
 def add (a b : Bool) : Bool := a != b
@@ -264,7 +264,7 @@ def neg (x : QI) : QI := ⟨-x.l, -x.r⟩
 
 /-- `QuadInt::conj` -/
 def conj (D : Int) (x : QI) : Res QI :=
-  let m := D.emod 4
+  let m := D % 4
   if m == 1 then ok ⟨x.l + x.r, -x.r⟩
   else if m == 2 || m == 3 then ok ⟨x.l, -x.r⟩
   else panic
@@ -273,7 +273,7 @@ def conj (D : Int) (x : QI) : Res QI :=
 def norm (D : Int) (x : QI) : Res Int :=
   let a := x.l
   let b := x.r
-  let m := D.emod 4
+  let m := D % 4
   if m == 1 then
     let d := (1 - D).tdiv 4
     ok (a * a + a * b + b * b * d)
@@ -290,7 +290,7 @@ def mul (D : Int) (x y : QI) : Res QI :=
   if b == 0 then ok ⟨a * c, a * d⟩
   else if d == 0 then ok ⟨a * c, b * c⟩
   else
-    let m := D.emod 4
+    let m := D % 4
     if m == 1 then
       let e := (D - 1).tdiv 4
       ok ⟨a * c + b * d * e, a * d + b * c + b * d⟩
